@@ -6,7 +6,8 @@ import random
 from collections import OrderedDict as odict
 
 VENDORS = ["huawei", "cisco", "arista", "nexus", "routeros", "b4com"]
-NOUNS = ["interface", "vlan", "ip", "description", "mtu", "bgp", "peer", "address", "shutdown", "port", "acl", "rule"]
+NOUNS = ["interface", "vlan", "ip", "description", "mtu", "bgp", "peer", "address", "shutdown", "port", "acl", "rule",
+         "notify", "undoable"]     # the last two merely BEGIN with a vendor's negation word ("no", "undo")
 VALS = ["Eth1", "Eth2", "10", "20", "foo", "bar"]
 _SETUP = False
 
